@@ -98,7 +98,7 @@ namespace AIToolbox {
             auto operator-(difference_type diff) const {
                 auto retval = IndexMapIterator(currentId_, *items_);
                 retval.currentId_ -= diff;
-                return *this;
+                return retval;
             }
 
             template <typename U = iterator_category, typename = std::enable_if_t<std::is_same_v<U, std::random_access_iterator_tag>>>
